@@ -67,4 +67,13 @@ def truncatedAt (r : ResDef) (x : Str) : List Str :=
 /-- only `x` is missing -/
 def onlyMissing (r : ResDef) (x : Str) : List Str := (heavyAll r).filter (fun u => u ≠ x)
 
+/-! ### the neighbour pointers (`Biomolecule.update_bonds`, third step) -/
+
+/-- for two consecutive amino-acid residues of a chain — the first has its C (`hasC`), the second
+its N (`hasN`), and if both exist they are farther apart than `PEPTIDE_DIST` (`far`) — which of the
+two pointers end up set: (`res1.peptide_n`, `res2.peptide_c`). These pointers are what the template
+atoms `N+1` / `C-1` resolve to in `repair_heavy` and `add_hydrogens`. -/
+def peptideLink (hasC hasN far : Bool) : Bool × Bool :=
+  if hasC && hasN then (if far then (false, false) else (true, true)) else (hasN, hasC)
+
 end P2P.RepairFit
